@@ -250,8 +250,9 @@ class SimSocket:
             nbytes = len(mv)
         if nbytes == 0:
             return 0
+        waitall = bool(flags & _real_socket.MSG_WAITALL) and self.timeout is None
         try:
-            if (flags & _real_socket.MSG_WAITALL) and self.timeout is None:
+            if waitall:
                 data = self._recv_core(nbytes)
             else:
                 data = self._recv_some(nbytes)
@@ -261,7 +262,9 @@ class SimSocket:
             raise
         mv[:len(data)] = data
         if self.side == "mgr":
-            self.net.on_mgr_read(self, data, nbytes)
+            # only a MSG_WAITALL read that comes back short, or a plain read that comes back empty, means the
+            # stream has ended; a plain read may legitimately return part of what was asked for
+            self.net.on_mgr_read(self, data, nbytes, eof=(len(data) < nbytes) if waitall else (len(data) == 0))
         else:
             self.net.on_peer_read(self, data, nbytes)
         return len(data)
@@ -271,12 +274,13 @@ class SimSocket:
             raise ValueError("negative buffersize in recv")
         if nbytes == 0:
             return b""
-        if (flags & _real_socket.MSG_WAITALL) and self.timeout is None:
+        waitall = bool(flags & _real_socket.MSG_WAITALL) and self.timeout is None
+        if waitall:
             data = self._recv_core(nbytes)
         else:
             data = self._recv_some(nbytes)
         if self.side == "mgr":
-            self.net.on_mgr_read(self, data, nbytes)
+            self.net.on_mgr_read(self, data, nbytes, eof=(len(data) < nbytes) if waitall else (len(data) == 0))
         else:
             self.net.on_peer_read(self, data, nbytes)
         return data
@@ -532,9 +536,11 @@ class SimNet:
         return self.seq
 
     # manager-side observation ---------------------------------------------------
-    def on_mgr_read(self, sock: SimSocket, data: bytes, wanted: int):
-        if len(data) < wanted:
-            # short read = EOF / reset noticed by the reader
+    def on_mgr_read(self, sock: SimSocket, data: bytes, wanted: int, eof=None):
+        if eof is None:
+            eof = len(data) < wanted
+        if eof:
+            # EOF / reset noticed by the reader
             seq = self.log("MGR_EOF", sock.idx, len(data), wanted)
             self.ends.append((seq, sock.idx, "eof"))
             if sock.rd_frame is not None and not sock.rd_frame.complete:
